@@ -4,7 +4,7 @@ From Coq Require Export List NArith Bool Arith Lia.
 Export ListNotations.
 
 (* A Python str is a sequence of code points 0 .. 0x10FFFF (lone surrogates included). *)
-Definition text := list N.
+Notation text := (list N) (only parsing).
 
 (* ---- character sets: decision tree over interval pivots ---------------------------------- *)
 Inductive cset := CLeaf (b : bool) | CNode (pivot : N) (l r : cset).
@@ -72,7 +72,7 @@ Definition tcomp_eqb (a b : tcomp) : bool :=
 Lemma tcomp_eqb_eq a b : tcomp_eqb a b = true <-> a = b.
 Proof. split; [destruct a, b; simpl; congruence | intros ->; destruct b; reflexivity]. Qed.
 
-Definition ttype := list tcomp.
+Notation ttype := (list tcomp) (only parsing).
 
 Fixpoint ttype_eqb (a b : ttype) : bool :=
   match a, b with
@@ -146,4 +146,4 @@ Proof.
   - intros E; injection E as -> ->. rewrite andb_true_iff, N.eqb_eq, IH; auto.
 Qed.
 
-Definition tok := (ttype * text)%type.
+Notation tok := (list tcomp * list N)%type (only parsing).
